@@ -271,6 +271,17 @@ func TestC16(t *testing.T) {
 				}
 				continue
 			}
+			if lastName != "" && rapid.IntRange(0, 3).Draw(rt, "standingBid") == 0 {
+				// somebody has an open bid on the name (escrowed in the name-service module account): a registration must
+				// neither touch it nor be paid from it
+				bidder := chain.Acc(rapid.IntRange(0, 2).Draw(rt, "bidder"))
+				coin := sdk.NewInt64Coin("ujkl", rapid.Int64Range(1, 50_000_000).Draw(rt, "bidAmount"))
+				r := w.f.Exec(rnstypes.NewMsgBid(bidder.Bech, lastName, coin))
+				w.logf("bid %s on %q by acc%d -> %s", coin, lastName, bidder.Index, r)
+				if r.OK() {
+					rec.Count("ok:bid")
+				}
+			}
 			var s c16Step
 			s.Acc = rapid.IntRange(0, 2).Draw(rt, "acc")
 			if lastName != "" && rapid.IntRange(0, 9).Draw(rt, "sameName") < 7 {
